@@ -321,3 +321,19 @@ package invocation
 //@   ensures [C18] nofault: result2 == nil ==> failed(r) == old(failed(r))
 //@   ensures [C08,C18] cid: result2 == nil ==> (exists x string :: delivered(r) == old(delivered(r)) ++ x && result1 == ucanCid(x) && envelopeVerified(decodeWith(dagcbor.Decode, x), Tag))
 //@   assigns anything
+//@
+//@ // the codec-specific entry points are the generic ones with the codec they are named after
+//@ func FromDagJson
+//@   ensures [C09] total: true
+//@   requires bindnodeInvModelsWF() && (forall x any :: unwrapped(x) && x is *tokenPayloadModel ==> x.(*tokenPayloadModel) != nil)
+//@   ensures [C06,C10] envelope: result1 == nil ==> envelopeVerified(decodeWith(dagjson.Decode, bytes(data)), Tag)
+//@ func (*Token).ToDagCbor
+//@   requires canSeali(t, privKey)
+//@   ensures [C08,C18] bytes: result1 == nil ==> bytes(result0) == encodeWith(dagcbor.Encode, sealedNodei(t, privKey, old(signings(privKey))))
+//@   ensures [C08,C18] once: result1 == nil ==> signings(privKey) == old(signings(privKey)) + 1
+//@   assigns [C20] signings(privKey)
+//@ func (*Token).ToDagJson
+//@   requires canSeali(t, privKey)
+//@   ensures [C08,C18] bytes: result1 == nil ==> bytes(result0) == encodeWith(dagjson.Encode, sealedNodei(t, privKey, old(signings(privKey))))
+//@   ensures [C08,C18] once: result1 == nil ==> signings(privKey) == old(signings(privKey)) + 1
+//@   assigns [C20] signings(privKey)
